@@ -19,8 +19,8 @@ import (
 	"verif/sim/kernel"
 )
 
-// Acc is one signing identity. Key material is random per process (Go's ECDSA
-// key generation cannot be seeded); the logical identity is the pool index.
+// Acc is one signing identity. Key material is derived from the pool index
+// (detkey.go), so addresses and channel IDs are the same in every process.
 type Acc struct {
 	Idx    int
 	Acc    *simwallet.Account
@@ -40,8 +40,7 @@ func Pool(n int) []*Acc {
 	poolMu.Lock()
 	defer poolMu.Unlock()
 	for len(pool) < n {
-		rng := kernel.NewRand(kernel.Derive(0xacc, len(pool)))
-		a := simwallet.NewRandomAccount(rng)
+		a := DetAccount("acc", len(pool))
 		pool = append(pool, &Acc{
 			Idx:    len(pool),
 			Acc:    a,
@@ -60,8 +59,7 @@ func PaymentApp(k int) channel.App {
 	poolMu.Lock()
 	defer poolMu.Unlock()
 	for len(apps) <= k {
-		rng := kernel.NewRand(kernel.Derive(0xa99, len(apps)))
-		id := simchannel.AppID{Address: simwallet.NewRandomAddress(rng)}
+		id := simchannel.AppID{Address: DetAddress("payment-app", len(apps))}
 		appIDs = append(appIDs, id)
 		app := &payment.App{ID: id}
 		channel.RegisterApp(app) // so that encoded states and proposals naming it can be decoded
